@@ -2747,6 +2747,45 @@ ceil = _round_like("ceil")
 trunc = _round_like("trunc")
 
 
+def round(x, decimals=0, out=None):
+    """numpy.round / around / rint over the reals: round-half-to-even of x * 10**decimals (numpy's own scaling is done in binary64,
+    which can differ exactly at a scaled half; path witnesses run on the real numpy)"""
+    if out is not None:
+        raise Unsupported("np.round(out=)")
+    d = int(decimals)
+    scale = Fraction(10) ** d
+    x = x if isinstance(x, (ndarray, Sym)) else asarray(x)
+
+    def one(v):
+        if isinstance(v, SInt):
+            if d >= 0:
+                return v
+            raise Unsupported("np.round of integers to negative decimals")
+        v = as_sfloat_strict(v)
+        y = v.v * rv(scale)
+        fl = z3.ToInt(y)
+        frac = y - z3.ToReal(fl)
+        half = rv(Fraction(1, 2))
+        up = mk_or(frac > half, mk_and(mk_eq(frac, half), mk_not(mk_eq(fl % 2, z3.IntVal(0)))))
+        return SFloat(v.nan, z3.ToReal(fl + mk_if(up, z3.IntVal(1), z3.IntVal(0))) / rv(scale))
+    if isinstance(x, ndarray):
+        if x._dt.kind not in "fiu":
+            raise Unsupported(f"np.round of {x._dt}")
+        out_ = _obj(x.a.shape)
+        for p in _np.ndindex(x.a.shape):
+            out_[p] = one(x.a[p])
+        r = ndarray(out_, x._dt if x._dt.kind == "f" else x._dt)
+        return MaskedArray(r, x._mask_copy()) if x._is_masked else r
+    return one(x)
+
+
+around = round_ = round
+
+
+def rint(x):
+    return round(x, 0)
+
+
 def sort(a, axis=-1):
     a = a if isinstance(a, ndarray) else asarray(a)
     if a.a.ndim != 1 or a._is_masked:
